@@ -199,7 +199,14 @@ def stab_cases(draw):
     p = draw(c04.vk_cases(24))
     if draw(st.integers(0, 3)) == 0:
         p = dict(p, L0=float(p["ps"]) * draw(gen.logfloat(3e8, 5e9)))
+        if draw(st.booleans()):
+            # small screens: their joint covariance is better conditioned, so the code's refusal sets in later than for large ones
+            nx = draw(st.integers(2, 9))
+            p = dict(p, nx=nx, ncol=min(p["ncol"], nx), L0=float(p["ps"]) * draw(gen.logfloat(1e9, 8e9)))
     return p
+
+
+KF_UNSTABLE = "C05-unstable-recursion-extreme-outer-scale"
 
 
 def stab_body(ctx, p):
@@ -223,6 +230,11 @@ def stab_body(ctx, p):
     G = np.zeros((n, nx))
     G[:nx] = B
     rho = float(np.max(np.abs(np.linalg.eigvals(F))))
+    if rho >= 1.0 + 1e-9 and p["L0"] / float(p["ps"]) >= 1e9 and ctx.is_open(KF_UNSTABLE):
+        # open known finding: accepted but unstable recursions for L0 / pixel_scale >= 1e9 (only this slice is excluded: an
+        # unstable recursion at a smaller ratio, and every other requirement at any ratio, is still reported)
+        ctx.exclude(KF_UNSTABLE)
+        return
     ctx.residual("spectral radius of the row recursion", rho, 1.0)
     # eigenvalues of the non-normal companion matrix are computed to ~1e-12; 1 - rho is of the order pixel/L0 >= 1e-6 here
     ctx.require(rho < 1.0 + 1e-9, "the row recursion is not stable: spectral radius %.9f >= 1 (nx=%d, n_columns=%d, L0/pixel=%.3g)" % (rho, nx, nc, p["L0"] / p["ps"]))
